@@ -27,7 +27,7 @@ def run(ctx):
     scope = {ctx.fn(parsers.JP + "read_u64").path, ctx.fn(parsers.JP + "read_kind").path}
     ctx.functions.update(scope)
     obs = g_obligations(ctx, scope, ("arith", "cast", "index"))
-    ctx.floor("C01.integer-reader-sites", len(obs), 6)
+    ctx.floor("C01.integer-reader-sites", len(obs), 2)
     for o in obs:
         ctx.add(o)
     # checked accumulation present (a reader that silently stopped accumulating would also have no raw arithmetic)
